@@ -81,7 +81,7 @@ func compareTraits(got []string, want map[string]bool) (rule, detail string) {
 }
 
 func runParent(r *vk.Run) {
-	n := r.Pick(4000, 150000)
+	n := r.Pick(4000, 450000)
 	for i := 0; i < n; i++ {
 		if !r.Mine(i) {
 			continue
